@@ -73,9 +73,9 @@ theorem pause_honoured {c c' : Chan} {ev : Ev} {ms : List Msg} {os : List Out} (
     · simp only [Option.some.injEq, Prod.mk.injEq] at hf
       rw [← hf.1]; exact hp
   | close =>
-    obtain ⟨c1, _, hc2⟩ := step_close_ok h
+    obtain ⟨c1, _, _, hc2⟩ := step_close_ok h
     refine ⟨?_, fun hne => absurd rfl hne⟩
-    rcases hc2 with ⟨_, _, rfl⟩ | ⟨_, _, rfl⟩
+    rcases hc2 with ⟨_, _, _, rfl⟩ | ⟨_, _, _, rfl⟩
     · rcases (discardRecv_spec c1).fired with ⟨h3, _⟩ | ⟨h3, _⟩ <;> rw [h3] <;> rfl
     · rfl
   | pause =>
